@@ -89,6 +89,84 @@ CLAIMED.update({
             TECH, "DESIGN.md 6/C12"),
 })
 
+CLAIMED.update({
+    "C02": ("proof",
+            "Fast-path cache transparency over any lookup history, conditional chain independence (given per-entry soundness), blt/fill "
+            "delegation, and the SIMD lane kernels (sse2/mmx pix_multiply, over, in_over, add-multiply, saturating pack, 565 "
+            "pack/unpack, bilinear weights) proved equal to the C reference arithmetic for all lane inputs; every one of the 574 "
+            "fast-path/iterator table entries of the live chain is hit by synthesised requests (observed through trampolines) swept "
+            "over widths 1..35, alignments, strides, and compared byte for byte across 7 PIXMAN_DISABLE processes; white-box kernel "
+            "and lookup-history correspondence.",
+            TB + "Partial: per-entry soundness (EntrySound) and the SIMD loop structure (head/body/tail, alignment) are validated by the "
+            "differential sweep, not proved. Known finding L2: destination dither is honoured only by the general path.",
+            "Lean 4 theorems (cache transparency, chain independence, lane kernels) + per-table-entry differential sweep across 7 "
+            "PIXMAN_DISABLE processes + white-box kernel and lookup-history correspondence with the compiled Lean driver", "DESIGN.md 6/C02"),
+    "C08": ("proof",
+            "Literal Lean model of the reference fetchers (nearest, bilinear 7-bit weights with bit-exact lanes, convolution, separable "
+            "convolution with phase rounding, repeat modes, affine stepping, signed projective division): repeat = Spec for all "
+            "integers, affine positions = round16 of the exact centre image with no drift, bilinear/convolution channel formulas and "
+            "constant preservation proved; OP_SRC composites of transformed sources replayed through model and library under 6 "
+            "PIXMAN_DISABLE configurations plus an independent exact per-pixel Spec oracle in the harness.",
+            TB + "Partial: projective sampling only within a stated bound (projective_position_bound_partial); specialised/SIMD "
+            "scaling loops tied by the 6-configuration correspondence only; narrow pipeline, no alpha maps/accessors. Known finding "
+            "S2: homogeneous coordinates beyond int32 in __bits_image_fetch_general.", TECH, "DESIGN.md 6/C08"),
+    "C13": ("proof",
+            "Model over exact rationals of the gradient walker (sentinels, stop search, NORMAL/REFLECT folding), linear projection, "
+            "radial root selection and conical parameter; safety (every stop index inside the n+2 block, search terminates) proved for "
+            "arbitrary stop lists; projection parameter, exact affine increments, radial root = largest admissible root of the "
+            "two-circle equation, guarded degenerate geometries proved; every generated pixel compared with model and Spec within one "
+            "8-bit step (discontinuity-aware), ASan+UBSan safety stream with CPU watchdog.",
+            TB + "Partial: G2 composition (walker colour = Spec interpolation) is proved per component and tied by the per-pixel Spec "
+            "oracle; IEEE rounding, sqrt and atan2 are parameters; conical has no theorem beyond its definition.", TECH, "DESIGN.md 6/C13"),
+    "C14": ("proof",
+            "State-machine model of all 12 pixman-image.c setters (early returns, dirty marking), _pixman_image_validate and "
+            "compute_image_info (flag constants regenerated from pixman-private.h) plus the 8-slot dispatch cache: invariant "
+            "(clean -> derived = derive(props)), history irrelevance of every validated image, Spec refinement and cache transparency "
+            "proved for every history; per-call whole-struct correspondence on 1.5e6 calls under 2 chains and a fresh-replica rendering "
+            "oracle after every use.",
+            TB + "Pixel rendering itself is tied only through the fresh-replica oracle; allocation failure excluded (C15).",
+            TECH, "DESIGN.md 6/C14"),
+    "C15": ("proof",
+            "Allocation-oracle refinement of the region model (rect_alloc, break, pixman_op old_data/bail, validate, copy, public ops, "
+            "constructors as allocation sequences): for every failure schedule FALSE => broken result, TRUE => failure-free result, "
+            "broken operands propagate, every block freed at most once and exactly once after fini (history theorem over all "
+            "aliasing patterns); link-time fault enumeration (k-th / from-k) of every allocation of ~5000 scenarios over all public "
+            "entry-point families on the rebuilt library, model-compared for regions/constructors, oracle for drawing paths.",
+            TB + "Partial: init_rects/translate TRUE-branch refinement and validate's heap discipline are enumerated, not proved; "
+            "drawing paths under failure are oracle-only (no crash, no leak, old-or-correct pixels, writes inside the region). Known "
+            "findings A1-A4 (alpha-map destination rows composited against the wrong alpha; fill_rectangles / glyph insert report "
+            "success for skipped work).",
+            "Lean 4 refinement + ownership/heap-log theorems for all schedules and histories; link-time (--wrap) fault enumeration on "
+            "the rebuilt library as correspondence and oracle", "DESIGN.md 6/C15"),
+    "C16": ("proof",
+            "Footprint/commutation model: for any number of threads and any interleaving, thread-private write footprints and immutable "
+            "shared reads imply every thread observes its solo run; validate on a clean image writes nothing; every mutable global of "
+            "the compiled library (regenerated from the clang AST, cross-checked with nm on the fresh archive) is classified "
+            "const / thread-local / written-once-by-constructor / diagnostic by a decide over the regenerated list; ThreadSanitizer "
+            "build with 2-16 threads on ~110 recorded schedules, per-request digests equal to the solo run.",
+            TB + "Partial: the C memory model, the scheduler and accesses inside a call are not modelled; the footprint table is tied to "
+            "the code by TSan on executed schedules and a write-set correspondence only.",
+            "Lean 4 commutation proof (any interleaving) + regenerated global-state classification (clang AST, nm cross-check) + "
+            "ThreadSanitizer and solo-run determinism oracle on executed schedules", "DESIGN.md 6/C16"),
+    "C18": ("proof",
+            "Layout, header, n_values, filter_width / first tap (exact integer models, kernel widths regenerated from pixman-filter.c), "
+            "the stores and the residual step of create_1d_filter and set_filter's n_params test proved for arbitrary coefficient "
+            "values: every phase sums to exactly 65536, nothing outside the block is written, the tables tile [4,n_values); constant "
+            "images stay constant for 255*w*h < 65536; all 8x8 kernel pairs x scales x subsample bits 0..8 replayed through model and "
+            "library incl. canary cells behind the block, table oracle, ASan/UBSan run.",
+            TB + "Partial: the double-precision sampling/normalisation is observed (floor/ceil-hooked recompilation of pixman-filter.c) "
+            "and fed to the model, not modelled; W1 assumes no int32 wrap of the running total (measured). Known finding T: tables "
+            "with >= 258 taps do not keep a constant image constant (products rounded before accumulation).", TECH, "DESIGN.md 6/C18"),
+    "C20": ("proof",
+            "Heap model with explicit per-block free counters, ghost client references, destroy callbacks, alpha-map exchange, setters "
+            "replacing owned buffers and the glyph cache's private copies: ref_count = client refs + parents + cache entries, release "
+            "exactly once exactly at the last unref with the callback fired once, alpha map outlives its parent, no chains or self "
+            "loops, no use after free, no leak — proved as invariants over every operation history; exhaustive small-scope plus "
+            "29k generated histories against the library under ASan+LSan with a malloc-wrap block census after every call.",
+            TB + "Partial: exactness of owned-buffer frees is proved per image record (two _partial theorems), the cross-history "
+            "non-interference is covered by the block census.", TECH, "DESIGN.md 6/C20"),
+})
+
 REASON_PENDING = "not yet claimed: check under construction (DESIGN.md section 6)"
 
 
